@@ -18,7 +18,7 @@ BUDGET = {"quick": (8, 35), "thorough": (16, 800)}
 K = 2
 RULE = ("Generated all-feature OCP (every sampling method and grid, free/parametric horizon, parameters and variables of every kind, optional DAE, scales, objective terms, constraints, guesses, "
         "optional second stage) saved with ocp.save before the first transcription, after a query, or after a limited solve, then loaded with Ocp.load. Oracles: loaded and original NLP have equal "
-        "f, constraint-row multiset, parameter vector and starting point at random decision vectors; a 2-iteration ipopt run on both gives the same iterate and iteration count (method and solver "
+        "f, constraint-row multiset, parameter vector and starting point at random decision vectors; a 1-3 iteration ipopt run (options given with dotted keys or as a nested plugin dictionary, with or without expand) on both gives the same iterate and iteration count (method and solver "
         "settings); accessors (states, controls, ... in order, shapes) reach symbols whose samples equal the original's; the original still transcribes to the same NLP and solves after save. "
         "Non-trivial = save after transcription/solve, or free time, DAE, scaling, per-interval quantities, multi-stage; distinct = SHA-1 of case JSON.")
 ASSUMPTIONS = ["loaded OCP creates decision variables in the same order as the original (checked by count and by equality of sampled quantities)"]
@@ -45,6 +45,9 @@ def strategy_(draw):
         b = gen.leaves_of([d for d in sub["states"]])[0]
         sp["coupling"] = [{"lhs": [["-", ["at_tf", a, "main"], ["at_t0", b, "s1"]]], "rel": "==", "rhs": [E.C(0.0)]}]
     when = draw(st.sampled_from(["before", "after_query", "after_solve"]))
+    # solver settings in both spellings CasADi accepts: dotted keys or a nested plugin dictionary
+    it = draw(st.integers(1, 3))
+    sp["solver"] = ["ipopt", draw(st.sampled_from([{"ipopt.max_iter": it}, {"ipopt": {"max_iter": it}}, {"ipopt": {"max_iter": it}, "expand": True}, {"ipopt.max_iter": it, "expand": True}]))]
     return {"spec": sp, "when": when, "rng": draw(st.integers(0, 2**31 - 1))}
 
 
@@ -54,7 +57,7 @@ def strategy(tier):
 
 def feature_labels(case):
     sp = case["spec"]
-    labs = ["method:" + sp["method"]["cls"], "grid:" + sp["method"]["grid"]["cls"], "save:" + case["when"]]
+    labs = ["method:" + sp["method"]["cls"], "grid:" + sp["method"]["grid"]["cls"], "save:" + case["when"], "solver-options:" + ("nested" if isinstance(sp.get("solver", [0, {}])[1].get("ipopt"), dict) else "dotted")]
     if sp["T"][0] == "free" or sp["t0"][0] == "free":
         labs.append("free-time")
     if sp["T"][0] == "par" or sp["t0"][0] == "par":
@@ -71,7 +74,7 @@ def feature_labels(case):
 
 
 def nontrivial(case):
-    return len(feature_labels(case)) > 3 or case["when"] != "before"
+    return len(feature_labels(case)) > 4 or case["when"] != "before"
 
 
 def classify(case):
@@ -92,7 +95,7 @@ def check(case, ctx):
     rng = np.random.default_rng(case["rng"])
     feats = {"method": m["cls"], "when": case["when"], "multistage": bool(sp.get("substages"))}
     sp["objective"] = sp["objective"] + gen.activation_objective(sp)
-    sp["solver"] = ["ipopt", {"ipopt.max_iter": 2}]
+    sp.setdefault("solver", ["ipopt", {"ipopt.max_iter": 2}])
     B = build(sp)
     ocp = B.ocp
     fails = []
